@@ -355,3 +355,33 @@ func VerifC02_AfterSetMSize() {
 	}
 	vReach("c02.aftersetmsize")
 }
+
+
+// Strings longer than a 9P string can carry (more than 65535 bytes): what the
+// codec makes of such a message is not specified, but the channel must still
+// either emit one frame within msize whose length prefix is its length, or
+// nothing at all with an error.
+func VerifC02_OverlongString() {
+	msize := []int{65540, 65544, 65545, 65546, 65560, 70000, 140000}[ndChoice("msize", 7)]
+	n := []int{65536, 65537, 69000}[ndChoice("n", 3)]
+	tag := Tag(ndU16("tag"))
+	var fc *Fcall
+	switch ndChoice("kind", 3) {
+	case 0:
+		fc = &Fcall{Type: Rerror, Tag: tag, Message: MessageRerror{Ename: string(vBigBytes("ename", n))}}
+	case 1:
+		fc = &Fcall{Type: Tcreate, Tag: tag, Message: MessageTcreate{Fid: Fid(ndU32("fid")), Name: string(vBigBytes("name", n)), Perm: ndU32("perm"), Mode: Flag(ndU8("mode"))}}
+	case 2:
+		fc = &Fcall{Type: Twalk, Tag: tag, Message: MessageTwalk{Fid: Fid(ndU32("fid")), Newfid: Fid(ndU32("newfid")), Wnames: []string{"a", string(vBigBytes("wname", n))}}}
+	}
+	conn := &vCaptureConn{}
+	ch := newChannel(conn, codec9p{}, msize)
+	err := ch.WriteFcall(vBG, fc)
+	if err == nil {
+		vAssert(len(conn.out) >= 7 && int(vLE32(conn.out)) == len(conn.out), "C02: length prefix equals total length")
+		vAssert(len(conn.out) <= msize, "C02: frame within msize")
+	} else {
+		vAssert(len(conn.out) == 0, "C02: too long => nothing emitted")
+	}
+	vReach("c02.overlong")
+}
